@@ -488,12 +488,13 @@ End ReaderSafe.
 Theorem read_str_total cm ph ext src :
   (forall f, ext = Some f -> forall n a, safe (f n a)) -> safe (read_str cm ph ext src).
 Proof.
-  intros Hext. unfold read_str. destruct (tokenize src) as [ts|] eqn:E; [|apply safe_err].
+  intros Hext. unfold read_str.
+  set (mt := match cm with Some x => (Some x, src) | None => _ end). destruct mt as [mm text].
+  destruct (tokenize text) as [ts|] eqn:E; [|apply safe_err].
   unfold read_all. destruct ts as [|t ts']; [apply safe_err|].
   assert (Hwf : Forall tok_wf (t :: ts')) by (unfold tokenize in E; eapply tokenize_n_wf; eauto).
-  set (mm := match cm with Some x => Some x | None => module_of src end).
   destruct (read_form_good mm ph ext Hext (length (t :: ts')) (t :: ts') (le_n _) Hwf) as [[H1 H2] Hp].
-  destruct (read_form mm ph ext (S (length (t :: ts'))) (t :: ts')) as [[v rest]| | |] eqn:E2; simpl.
+  destruct (read_form mm ph ext (S (length (t :: ts'))) (t :: ts')) as [[v rest]| | |] eqn:E2; cbn [bind].
   - destruct rest; [apply safe_ok | apply safe_err].
   - apply safe_err.
   - exfalso; eapply H1; eauto.
